@@ -2517,6 +2517,11 @@ func (r *RIB) Flush(networkInstances []string) error {
 		}
 
 		for _, id := range backupNHGs {
+			if _, ok := niR.r.Afts.NextHopGroup[id]; !ok {
+				// The backup is not installed in this network instance, or has
+				// already been removed because more than one group refers to it.
+				continue
+			}
 			delNHG(id)
 		}
 
